@@ -265,7 +265,8 @@ def s_mul(a, b):
                 for _ in range(abs(n) - 1):
                     acc = acc * p
                 return LogV(acc if n > 0 else 1 / acc)
-        return l.term() * r
+        # (possibly -inf) * non-constant: 0 * -inf is NaN
+        return z3.If(l.P == 0, z3.FreshReal("nan"), l.term() * r)
     if is_num(a) and is_num(b):
         v = num_val(a) * num_val(b)
         return IV(v) if z3.is_int(a) and z3.is_int(b) else RV(v)
@@ -352,6 +353,17 @@ def s_exp(a):
         return a.P
     if is_app_of(a, "Log", 1):
         return a.arg(0)
+    if z3.is_mul(a) and a.num_args() == 2:
+        # exp(k * Log t) = t^k for a small integer k
+        for x, y in ((a.arg(0), a.arg(1)), (a.arg(1), a.arg(0))):
+            if is_num(x) and is_app_of(y, "Log", 1):
+                v = num_val(x)
+                if v.denominator == 1 and 1 <= abs(v) <= 6:
+                    t = y.arg(0)
+                    acc = t
+                    for _ in range(abs(int(v)) - 1):
+                        acc = acc * t
+                    return acc if v > 0 else 1 / acc
     if is_num(a) and num_val(a) == 0:
         return RV(1)
     return Exp(a)
@@ -380,10 +392,14 @@ def _cmp_args(a, b):
 
 
 def _fold_cmp(op):
+    refl = op(1, 1)      # value of `x op x`
+
     def f(a, b):
         a, b = _cmp_args(a, b)
         if is_num(a) and is_num(b):
             return BV(op(num_val(a), num_val(b)))
+        if a.eq(b):
+            return BV(refl)
         if z3.is_bool(a) and (z3.is_true(a) or z3.is_false(a)) and z3.is_bool(b) and (z3.is_true(b) or z3.is_false(b)):
             return BV(op(z3.is_true(a), z3.is_true(b)))
         return op(a, b)
@@ -594,8 +610,22 @@ RULES["is_finite"] = ew(lambda a: (s_gt(a.P, RV(0)) if isinstance(a, LogV) else 
 RULES["square"] = ew(lambda a: s_mul(unlog(a), unlog(a)))
 RULES["abs"] = ew(lambda a: (lambda t: t if (is_num(t) and num_val(t) >= 0) else (s_neg(t) if is_num(t) else z3.If(t >= 0, t, -t)))(unlog(a)))
 RULES["sign"] = ew(lambda a: (lambda t, one, zero, m: z3.If(t > zero, one, z3.If(t < zero, m, zero)))(unlog(a), *( (IV(1), IV(0), IV(-1)) if z3.is_int(unlog(a)) else (RV(1), RV(0), RV(-1)))))
-RULES["floor"] = ew(lambda a: z3.ToReal(z3.ToInt(unlog(a))))
-RULES["ceil"] = ew(lambda a: -z3.ToReal(z3.ToInt(-unlog(a))))
+def _floor(a):
+    a = unlog(a)
+    if is_num(a):
+        return RV(math.floor(num_val(a)))
+    return z3.ToReal(z3.ToInt(a))
+
+
+def _ceil(a):
+    a = unlog(a)
+    if is_num(a):
+        return RV(math.ceil(num_val(a)))
+    return -z3.ToReal(z3.ToInt(-a))
+
+
+RULES["floor"] = ew(_floor)
+RULES["ceil"] = ew(_ceil)
 RULES["round"] = ew(lambda a: UF("Round", RealS, RealS)(unlog(a)))
 
 
@@ -653,12 +683,26 @@ def _uf1(name):
     return ew(lambda a: f(s_real(unlog(a))))
 
 
+def _lgamma_rule(ctx, eqn, a):
+    f = UF("Lgamma", RealS, RealS)
+
+    def one(x):
+        x = s_real(unlog(x))
+        if is_num(x):
+            v = num_val(x)
+            if v.denominator == 1 and 1 <= v <= 12:
+                return s_log(RV(math.factorial(int(v) - 1)))
+        return f(x)
+    return ew(one)(ctx, eqn, a)
+
+
 for _n, _u in [("sin", "Sin"), ("cos", "Cos"), ("tan", "Tan"), ("tanh", "Tanh"), ("lgamma", "Lgamma"),
                ("digamma", "Digamma"), ("erf", "Erf"), ("erfc", "Erfc"), ("erf_inv", "ErfInv"),
                ("asin", "Asin"), ("acos", "Acos"), ("atan", "Atan"), ("sinh", "Sinh"), ("cosh", "Cosh"),
                ("asinh", "Asinh"), ("acosh", "Acosh"), ("atanh", "Atanh"), ("cbrt", "Cbrt"),
                ("bessel_i0e", "BesselI0e"), ("bessel_i1e", "BesselI1e")]:
     RULES[_n] = _uf1(_u)
+RULES["lgamma"] = _lgamma_rule
 
 for _n, _u in [("atan2", "Atan2"), ("igamma", "Igamma"), ("igammac", "Igammac"), ("nextafter", "Nextafter"),
                ("random_gamma_grad", "RandomGammaGrad"), ("polygamma", "Polygamma"), ("zeta", "Zeta")]:
@@ -1223,6 +1267,32 @@ def r_scan(ctx, eqn, *args):
 
 
 MAX_WHILE = [64]
+WHILE_AS_UF = [True]
+
+
+def _while_uf(eqn, args, tag=""):
+    """a while loop whose trip count depends on data (e.g. a rejection sampler) is abstracted as an uninterpreted
+    function of ALL its inputs, identified by the text of its cond/body IR: two occurrences of the same loop on equal
+    inputs are equal (sound for proving equalities; cannot prove anything about the loop's result itself)"""
+    import hashlib
+    p = eqn.params
+    import re
+    txt = re.sub(r"0x[0-9a-f]+", "0x", str(p["cond_jaxpr"]) + "|" + str(p["body_jaxpr"]))
+    ident = hashlib.sha1(txt.encode()).hexdigest()[:10] + tag
+    flat = []
+    for a in args:
+        for e in obj(a).ravel():
+            flat.append(unlog(e))
+    outs = []
+    for oi, v in enumerate(eqn.outvars):
+        kind = kind_of(v.aval.dtype)
+        srt = {"f": RealS, "i": IntS, "u": IntS, "b": BoolS, "k": Key}[kind]
+        out = np.empty(v.aval.shape, dtype=object)
+        for j, idx in enumerate(np.ndindex(*v.aval.shape)):
+            f = UF(f"While_{ident}_{oi}_{j}", *[t.sort() for t in flat], srt)
+            out[idx] = f(*flat)
+        outs.append(out)
+    return outs
 
 
 @rule("while")
@@ -1241,6 +1311,9 @@ def r_while(ctx, eqn, *args):
             ctx.path = saved
             return carry
         if not z3.is_true(c):
+            if WHILE_AS_UF[0]:
+                ctx.path = saved
+                return _while_uf(eqn, list(cc) + list(bc) + list(carry), tag=f"it{it}")
             raise Unsupported("while loop with data-dependent trip count")
         ctx.path = saved + (it,)
         carry = eval_jaxpr(ctx, bj, bconsts, *bc, *carry)
@@ -1320,8 +1393,11 @@ def r_triangular_solve(ctx, eqn, a, b):
     a, b = obj(a), obj(b)
     p = eqn.params
     left, lower, trans, conj, unit = p["left_side"], p["lower"], p["transpose_a"], p["conjugate_a"], p["unit_diagonal"]
-    tr = str(trans).upper()
-    do_t = not ("NO" in tr or tr.endswith("N") or tr == "0")
+    if isinstance(trans, (bool, np.bool_)):
+        do_t = bool(trans)
+    else:
+        tr = str(trans).upper()
+        do_t = not ("NO" in tr or tr.endswith("N") or tr in ("0", "FALSE"))
     out = np.empty(b.shape, dtype=object)
     n = a.shape[-1]
     for bi in np.ndindex(*a.shape[:-2]):
@@ -1508,6 +1584,19 @@ def r_bitcast(ctx, eqn, a):
     srt = {"f": RealS, "i": IntS, "u": IntS, "b": BoolS}
     f = UF(name, srt[old], srt[new])
     return ew(lambda x: f(unlog(x)))(ctx, eqn, a)
+
+
+@rule("empty")
+def r_empty(ctx, eqn, *a):
+    v = eqn.outvars[0]
+    return fresh_like(v.aval.shape, v.aval.dtype, f"uninit{next(ctx.counter)}")
+
+
+@rule("random_gamma")
+def r_random_gamma(ctx, eqn, k, a):
+    ctx.consumed.append(("bits", obj(k).ravel()[0], ctx.path, ()))
+    f = UF("RandomGamma" + ("Log" if eqn.params.get("log_space") else ""), Key, RealS, RealS)
+    return ew(lambda kk, aa: f(kk, s_real(unlog(aa))))(ctx, eqn, k, a)
 
 
 @rule("threefry2x32")
